@@ -21,7 +21,8 @@ STR_LENGTHS_BIG = (16383, 16384, 32767)  # 32767 = the most a legacy (int16-leng
 BYTES_LENGTHS_HUGE = (65537, 1048577, 2097152)  # beyond typical chunking thresholds (64 KiB, 1 MiB); 2^21: the compact length needs a 4-byte varint
 BIG_LABELS = tuple(f"len{n}" for n in STR_LENGTHS_BIG + BYTES_LENGTHS_HUGE)
 ARRAY_BOUNDARY_CELLS = ("n127", "n128")  # compact array length varint goes from one to two bytes
-CHARS = ("a", "z", "0", " ", "é", "ß", "€", "한", "𝄞", "😀", "\x00", "\x7f")
+CHARS = ("a", "z", "0", " ", "é", "ß", "€", "한", "𝄞", "😀", "\x00", "\x7f",
+         "\ufeff", "A", "Z", "\n", "\t", "\r", "e\u0301", "\u00a0", "\u2028")  # BOM / ZWNBSP, upper case, control white space, a non-NFC sequence, NBSP, LS
 
 _error_codes: list[int] | None = None
 
@@ -49,6 +50,9 @@ def utf8_of_length(rng: random.Random, n: int) -> str:
         return body + "x" * (n - used)
     out = []
     left = n
+    lead = ""
+    if n >= 3 and rng.random() < 0.15:
+        lead, left = "\ufeff", n - 3  # a string that *starts* with U+FEFF (utf-8-sig style decoding drops it)
     while left > 0:
         c = rng.choice(CHARS)
         w = len(c.encode())
@@ -58,7 +62,7 @@ def utf8_of_length(rng: random.Random, n: int) -> str:
         out.append(c)
         left -= w
     rng.shuffle(out)
-    return "".join(out)
+    return lead + "".join(out)
 
 
 def pool_size(ktype: str, domain: str) -> int:
@@ -235,7 +239,7 @@ class Gen:
     # ----- cells ------------------------------------------------------------------
     def cells(self, fs: FieldSpec) -> list[str]:
         if fs.array:
-            out = ["empty", "one", "many"] + list(ARRAY_BOUNDARY_CELLS) + (["n16383"] if fs.kind == "prim" and self.long_arrays else []) + (["null"] if fs.nullable else [])
+            out = ["empty", "one", "many"] + list(ARRAY_BOUNDARY_CELLS) + (["n1024", "n2048", "n16383"] if fs.kind == "prim" and self.long_arrays else []) + (["null"] if fs.nullable else [])
         elif fs.kind == "struct":
             out = ["value"] + (["null"] if fs.nullable else [])
         else:
@@ -305,7 +309,7 @@ class Gen:
         cells = self.cells(fs)
         if fs.array:
             long_ok = depth == 0 and not self._lean and self.rng.random() < 0.04
-            cells = [c for c in cells if not c.startswith("n1") or (long_ok and c != "n16383")]
+            cells = [c for c in cells if not (c[0] == "n" and c[1:].isdigit()) or (long_ok and int(c[1:]) <= 128)]  # (longer ones only as forced each-choice cells)
             if self._lean:
                 cells = [c for c in cells if c != "many"]
         if fs.array and depth >= 3:
@@ -363,6 +367,8 @@ class Gen:
         out = []
         for t in tags:
             size = self.rng.choice((0, 1, 2, 127, 128, 300, self.rng.randint(0, 40)))
+            if self.rng.random() < 0.04:
+                size = self.rng.choice((8193, 10240, 16384, 65537))  # beyond typical chunk sizes; 16384 needs a three-byte size varint
             out.append((t, self.rng.randbytes(size)))
         return out
 
